@@ -385,6 +385,7 @@ theorem attr_ingress {m : Maps} (hm : Attributable m) {clk : UInt64} {f : Frame}
 
 theorem attr_step {m : Maps} (hm : Attributable m) (op : Op) : Attributable (step m op) := by
   cases op with
+  | deallocFail ip => exact hm
   | alloc ip b => exact attr_install hm ip b
   | dealloc ip =>
     simp only [step]
